@@ -32,26 +32,108 @@ impl StateStorage {
         self.rawdata.resize(size, 0)
     }
     fn get_state(&self, size: u64) -> &[RawVal] {
+        #[cfg(feature = "verif-hooks")]
+        verif_hooks::state_access(0, self.rawdata.as_ptr() as usize, self.pos, size as usize, self.rawdata.len());
         unsafe {
             let head = self.rawdata.as_ptr().add(self.pos);
             slice::from_raw_parts(head, size as _)
         }
     }
     fn get_state_mut(&mut self, size: usize) -> &mut [RawVal] {
+        #[cfg(feature = "verif-hooks")]
+        verif_hooks::state_access(1, self.rawdata.as_ptr() as usize, self.pos, size, self.rawdata.len());
         unsafe {
             let head = self.rawdata.as_mut_ptr().add(self.pos);
             slice::from_raw_parts_mut(head, size as _)
         }
     }
     fn get_as_ringbuffer(&mut self, size_in_samples: u64) -> Ringbuffer<'_> {
+        #[cfg(feature = "verif-hooks")]
+        verif_hooks::state_access(
+            2,
+            self.rawdata.as_ptr() as usize,
+            self.pos,
+            size_in_samples as usize + 2,
+            self.rawdata.len(),
+        );
         let data_head = unsafe { self.rawdata.as_mut_ptr().add(self.pos) };
         Ringbuffer::new(data_head, size_in_samples)
     }
     fn push_pos(&mut self, offset: StateOffset) {
+        #[cfg(feature = "verif-hooks")]
+        verif_hooks::cursor_move(self.pos as u64, std::convert::Into::<u64>::into(offset), true);
         self.pos = (self.pos as u64 + (std::convert::Into::<u64>::into(offset))) as usize;
     }
     fn pop_pos(&mut self, offset: StateOffset) {
+        #[cfg(feature = "verif-hooks")]
+        verif_hooks::cursor_move(self.pos as u64, std::convert::Into::<u64>::into(offset), false);
         self.pos = (self.pos as u64 - (std::convert::Into::<u64>::into(offset))) as usize;
+    }
+}
+
+/// Verification hooks (cargo feature `verif-hooks`, off by default): bounds assertions in front
+/// of the unchecked state accesses and an optional per-thread access trace.
+#[cfg(feature = "verif-hooks")]
+pub mod verif_hooks {
+    use std::cell::RefCell;
+
+    /// kind: 0 = read (`get_state`), 1 = write (`get_state_mut`), 2 = ring buffer (`Delay`)
+    #[derive(Debug, Clone, Copy, PartialEq, Eq)]
+    pub struct StateAccess {
+        pub kind: u8,
+        pub storage: usize,
+        pub pos: usize,
+        pub size: usize,
+        pub capacity: usize,
+    }
+    thread_local! {
+        static TRACE: RefCell<Option<Vec<StateAccess>>> = const { RefCell::new(None) };
+    }
+    /// Start recording state accesses on this thread.
+    pub fn start_trace() {
+        TRACE.with(|t| *t.borrow_mut() = Some(Vec::new()));
+    }
+    /// Stop recording and return what was recorded.
+    pub fn take_trace() -> Vec<StateAccess> {
+        TRACE.with(|t| t.borrow_mut().take()).unwrap_or_default()
+    }
+    pub(super) fn state_access(kind: u8, storage: usize, pos: usize, size: usize, capacity: usize) {
+        TRACE.with(|t| {
+            if let Some(v) = t.borrow_mut().as_mut()
+                && v.len() < 1_000_000
+            {
+                v.push(StateAccess {
+                    kind,
+                    storage,
+                    pos,
+                    size,
+                    capacity,
+                });
+            }
+        });
+        assert!(
+            pos.checked_add(size).is_some_and(|end| end <= capacity),
+            "verif-hooks: state access out of bounds: cursor {pos} + size {size} exceeds storage of {capacity} words"
+        );
+    }
+    pub(super) fn cursor_move(pos: u64, offset: u64, push: bool) {
+        if push {
+            assert!(
+                pos.checked_add(offset).is_some(),
+                "verif-hooks: state cursor overflow: {pos} + {offset}"
+            );
+        } else {
+            assert!(
+                offset <= pos,
+                "verif-hooks: state cursor underflow: {pos} - {offset}"
+            );
+        }
+    }
+    pub(super) fn range_check(what: &str, start: usize, size: usize, capacity: usize) {
+        assert!(
+            start.checked_add(size).is_some_and(|end| end <= capacity),
+            "verif-hooks: {what} access out of bounds: {start} + {size} exceeds {capacity} words"
+        );
     }
 }
 
@@ -589,6 +671,8 @@ impl Machine {
         // log::trace!("upper base:{}, upvalue:{}", upper_base, offset);
         let abs_pos = Self::get_upvalue_offset(upper_base, ov);
         let end = abs_pos + size as usize;
+        #[cfg(feature = "verif-hooks")]
+        verif_hooks::range_check("open upvalue", abs_pos, size as usize, self.stack.len());
         let slice = unsafe {
             let vstart = self.stack.as_slice().as_ptr().add(abs_pos);
             slice::from_raw_parts(vstart, size as usize)
@@ -596,6 +680,11 @@ impl Machine {
         (abs_pos..end, slice)
     }
     pub fn get_closure(&self, idx: ClosureIdx) -> &Closure {
+        #[cfg(feature = "verif-hooks")]
+        assert!(
+            self.closures.contains_key(idx.0),
+            "verif-hooks: closure handle used after release"
+        );
         debug_assert!(
             self.closures.contains_key(idx.0),
             "Invalid Closure Id referred"
@@ -603,6 +692,11 @@ impl Machine {
         unsafe { self.closures.get_unchecked(idx.0) }
     }
     pub(crate) fn get_closure_mut(&mut self, idx: ClosureIdx) -> &mut Closure {
+        #[cfg(feature = "verif-hooks")]
+        assert!(
+            self.closures.contains_key(idx.0),
+            "verif-hooks: closure handle used after release"
+        );
         debug_assert!(
             self.closures.contains_key(idx.0),
             "Invalid Closure Id referred"
@@ -1187,6 +1281,8 @@ impl Machine {
                     };
                 }
                 Instruction::GetGlobal(dst, gid, size) => {
+                    #[cfg(feature = "verif-hooks")]
+                    verif_hooks::range_check("global", gid as usize, size as usize, self.global_vals.len());
                     let gvs = unsafe {
                         let vstart = self.global_vals.as_ptr().offset(gid as _);
                         debug_assert!(!vstart.is_null());
@@ -1196,6 +1292,8 @@ impl Machine {
                     self.set_stack_range(dst as i64, gvs)
                 }
                 Instruction::SetGlobal(gid, src, size) => {
+                    #[cfg(feature = "verif-hooks")]
+                    verif_hooks::range_check("global", gid as usize, size as usize, self.global_vals.len());
                     let gvs = unsafe {
                         let vstart = self.global_vals.as_mut_ptr().offset(gid as _);
                         debug_assert!(!vstart.is_null());
@@ -1455,6 +1553,18 @@ impl Machine {
                 panic!("external function {name} cannot be found");
             }
         });
+    }
+    /// Read-only view of the dsp state words and the state cursor (verification hook).
+    #[cfg(feature = "verif-hooks")]
+    pub fn verif_global_state(&self) -> (&[u64], usize) {
+        (&self.global_states.rawdata, self.global_states.pos)
+    }
+    /// Read-only view of a closure's own state words and cursor (verification hook).
+    #[cfg(feature = "verif-hooks")]
+    pub fn verif_closure_state(&self, idx: ClosureIdx) -> Option<(&[u64], usize)> {
+        self.closures
+            .get(idx.0)
+            .map(|c| (c.state_storage.rawdata.as_slice(), c.state_storage.pos))
     }
     pub fn execute_idx(&mut self, idx: usize) -> ReturnCode {
         let (_name, func) = &self.prog.global_fn_table[idx];
